@@ -260,8 +260,8 @@ func c19(ctx *core.Ctx) {
 		}
 		// (a) sequential history, random order with repetitions
 		nh := 200
-		if ci%16 == 5 {
-			nh = 5000 // a long-lived container: the thousandth request is answered like the first
+		if ci%32 == 5 || ci%32 == 12 {
+			nh = 3000 // a long-lived container: the thousandth request is answered like the first
 			ctx.Count("long_histories", 1)
 		}
 		hist := make([]int, nh)
